@@ -40,18 +40,18 @@ def c14(tier):
 
 
 def c06(tier):
-    jobs = [(H('vm', 'HarnessC06MakeRange'), P('vm'), None, {})]
+    jobs = [(H('vm', 'HarnessC06MakeRange'), P('vm'), None, {}), (H('optimizer', 'HarnessC06ConstRange'), P('optimizer'), None, {})]
     kmax = 2 if tier == 'quick' else 3
     for k in range(kmax):
         import itertools
         for kinds in itertools.product(range(3), repeat=k + 1):
             jobs.append((H('vm', 'HarnessC06Seq'), P('vm'), [[k] + list(kinds)], {}))
     meta = {
-        'explanation': 'programs assembled from the allocating instructions (OpRange with symbolic 64-bit bounds, OpArray and OpMap literals of 0..3 elements) in every order, k=%d..%d constructs per run, run on the real VM.Run dispatch loop under a symbolic budget; z3 decides for all bounds and budgets that the run succeeds iff the number of elements created (reference: len of each collection, computed in unsigned arithmetic) is below the budget, and that the only failure is the budget error; makeRange contract (len and elements) for all bounds with <= 8 elements' % (1, kmax),
+        'explanation': 'programs assembled from the allocating instructions (OpRange with symbolic 64-bit bounds, OpArray and OpMap literals of 0..3 elements) in every order, k=%d..%d constructs per run, run on the real VM.Run dispatch loop under a symbolic budget; z3 decides for all bounds and budgets that the run succeeds iff the number of elements created (reference: len of each collection, computed in unsigned arithmetic) is below the budget, and that the only failure is the budget error; makeRange contract (len and elements) for all bounds with <= 8 elements; constRange.Exit on a literal range with symbolic bounds: the constant has the elements of the range and an allocation oracle reports any make([]int, n) whose n can exceed 10^6' % (1, kmax),
         'bounds': {'constructs per run': kmax, 'range bounds': 'all int64 values', 'budget': '1..2^20 (default 10^6 is inside)', 'admitted range size on explored paths': '<= 8 elements (makeRange loop unrolled); larger ranges only on refused paths', 'literals': '0..3 elements'},
         'outside': ['collections created by map/filter builtins (same OpArray accounting, exercised in C18/C01 templates)', 'budgets above 2^20', 'collections returned by environment functions'],
         'assumptions': COMMON_ASSUME,
-        'must_reach': ['c06.seq.ok', 'c06.seq.err', 'c06.makerange'],
+        'must_reach': ['c06.seq.ok', 'c06.seq.err', 'c06.makerange', 'c06.constrange.ran'],
     }
     return jobs, meta
 
@@ -67,12 +67,16 @@ def c07(tier):
             if first == 1 and (kinds[0] or kinds[1]): continue
             if first == 0 and kinds[1]: continue
             jobs.append((H('vm', 'HarnessC07History'), P('vm'), [[first] + list(kinds)], {}))
+    srcs = ['A + B', 'count(Xs, {# > A})', 'A / B', '[A, B, A % B]', 'len(0..A)', 'map(Xs, {# / A})', 'M.a', 'P ? A : B']
+    for s1 in srcs:
+        for s2 in (srcs if tier != 'quick' else srcs[:4]):
+            jobs.append((H('.', 'HarnessC07Programs'), P('.'), None, {'params': {'src1': s1, 'src2': s2}, 'label': '%s ; %s' % (s1, s2), 'job_timeout': 600}))
     meta = {
-        'explanation': 'VM.Run executed from a VM value whose every field is symbolic/arbitrary (ip, pp, memory, limit, stale stack and scopes of length <= 2, stale bytecode and constants) and from a zero VM on the same allocating program under a symbolic budget: z3 decides that outcome and result are equal for all field values; plus two-run histories on one VM (first run succeeding, failing midway inside an open scope, or allocating) compared with a fresh VM',
+        'explanation': 'program level: two template programs compiled by the real pipeline (Env(*struct), Env(map) or no Env, chosen symbolically) run one after the other on one vm.VM with environments of symbolically chosen form (struct pointer, map, nil) and symbolic member values, second run compared with a fresh VM; and: VM.Run executed from a VM value whose every field is symbolic/arbitrary (ip, pp, memory, limit, stale stack and scopes of length <= 2, stale bytecode and constants) and from a zero VM on the same allocating program under a symbolic budget: z3 decides that outcome and result are equal for all field values; plus two-run histories on one VM (first run succeeding, failing midway inside an open scope, or allocating) compared with a fresh VM',
         'bounds': {'stale stack/scopes': 'length <= 2', 'programs': '1..2 allocating constructs (symbolic range bounds, literals of 0..3 elements)', 'budget': '1..2^20', 'history length': 2},
         'outside': ['debug-mode VMs (debug/step/curr fields)', 'histories longer than 2 runs other than through the arbitrary pre-state harness'],
         'assumptions': COMMON_ASSUME + ['pre-state memory counter is >= 0 (what real histories produce when C06 holds)'],
-        'must_reach': ['c07.prologue.ran', 'c07.history.ran'],
+        'must_reach': ['c07.prologue.ran', 'c07.history.ran', 'c07.programs.ran'],
     }
     return jobs, meta
 
@@ -123,6 +127,9 @@ def c02(tier):
             if symlit and tier == 'quick' and sum(ch.isdigit() for ch in src) > 3:
                 continue   # many symbolic literals: thorough tier only
             jobs.append((H('.', 'HarnessC02Template'), P('.'), None, {'params': {'src': src, 'symlit': symlit, 'maxlen': 2}, 'label': '%s [symlit=%d]' % (src, symlit), 'job_timeout': 150 if tier == 'quick' else 900}))
+    for src in templates.C02_CONSTEXPR:
+        for symlit in (0, 1):
+            jobs.append((H('.', 'HarnessC02ConstExpr'), P('.'), None, {'params': {'src': src, 'symlit': symlit}, 'label': 'constexpr %s [symlit=%d]' % (src, symlit), 'job_timeout': 300}))
     if tier != 'quick':
         # the C01 templates in which a literal occurs, compiled twice
         for src in templates.gen(2):
@@ -131,9 +138,9 @@ def c02(tier):
     meta = {
         'explanation': 'each source in which a rewrite can fire (constant arithmetic at depth and in re-typed argument positions, literal arrays, membership in literal arrays and literal ranges with left operands of every static type, constant ranges) is compiled by the real pipeline with Optimize(true) and Optimize(false); integer literals are made SYMBOLIC by a Patch visitor (same values in both compilations) so fold/inArray/inRange/constRange compute on symbolic literal values; both programs run on the real VM with a symbolic environment; z3 decides both-fail-or-equal-results for all literal and environment values, and that the optimizer rejects only constant division/modulo by zero',
         'bounds': {'templates': len(jobs), 'literal values': 'all int64 (in -2..4 where the template contains a range or **)', 'arrays': 'length <= 2', 'environment': 'as C01'},
-        'outside': ['ConstExpr functions (separate harness not built)', 'the 1000/100-iteration fix-point limits of Optimize', 'string literal contents (concrete)'],
+        'outside': ['ConstExpr functions with side effects (the property says pure)', 'the 1000/100-iteration fix-point limits of Optimize', 'string literal contents (concrete)'],
         'assumptions': COMMON_ASSUME,
-        'must_reach': ['c02.ran', 'c02.both-succeed', 'c02.rejected-by-optimizer'],
+        'must_reach': ['c02.ran', 'c02.both-succeed', 'c02.rejected-by-optimizer', 'c02.constexpr.ran', 'c02.constexpr.failure-moved-to-compile-time'],
     }
     return jobs, meta
 
@@ -229,7 +236,55 @@ def c04(tier):
     return jobs, meta
 
 
+def c11_shapes(n):
+    """all tree shapes with exactly n operator nodes over binary, unary, conditional, member access and index"""
+    if n == 0:
+        return ['L']
+    out = []
+    for a in range(n):      # unary / member
+        pass
+    for s in c11_shapes(n - 1):
+        out.append('U(%s)' % s)
+        out.append('M(%s)' % s)
+    for i in range(n):
+        for l in c11_shapes(i):
+            for r in c11_shapes(n - 1 - i):
+                out.append('B(%s,%s)' % (l, r))
+                out.append('I(%s,%s)' % (l, r))
+    for i in range(n):
+        for j in range(n - i):
+            for a in c11_shapes(i):
+                for b in c11_shapes(j):
+                    for c in c11_shapes(n - 1 - i - j):
+                        out.append('C(%s,%s,%s)' % (a, b, c))
+    return out
+
+
+def c11(tier):
+    import random
+    q = tier == 'quick'
+    shapes = c11_shapes(1) + c11_shapes(2)
+    s3 = [s for s in c11_shapes(3) if s.count('B') + s.count('U') >= 2]
+    if q:
+        random.Random(SEED[0]).shuffle(s3)
+        s3 = s3[:60]
+    shapes += s3
+    jobs = []
+    for sh in shapes:
+        for red in (0, 1):
+            jobs.append((H('parser', 'HarnessC11RoundTrip'), P('parser'), None, {'params': {'shape': sh, 'redundant': red}, 'label': '%s redundant=%d' % (sh, red), 'job_timeout': 900}))
+    meta = {
+        'explanation': 'round trip through the REAL parser (parseExpression/parsePrimary/parseConditionalExpression/parsePostfixExpression/next/expect, Token.Is) on token sequences printed from a tree shape with only the parentheses the documented precedence/associativity table requires (and with one redundant pair around a symbolically chosen subterm): every operator is symbolic - its level is forked, the operator within the level is a symbolic index, so binaryOperators[token] is an if-then-else term and the climbing test op.precedence >= precedence is decided by z3; asserted: accepted, and the parsed tree equals the printed tree',
+        'bounds': {'shapes': len(shapes), 'operator nodes per tree': '<= 3 (binary, unary, conditional, member access, index)', 'operators': 'all 23 binary and 4 unary operators'},
+        'outside': ['differential against a full reference parser on arbitrary token sequences (only panic-freedom on token sequences is checked, in C04)', 'calls, builtins/closures, array and map literals, slices in the round trip', 'whitespace (lexer: C12)'],
+        'assumptions': COMMON_ASSUME + ['the reference precedence table of harness/parser/zz_verif_c11.go states the documented grammar'],
+        'must_reach': ['c11.parsed'],
+    }
+    return jobs, meta
+
+
 PROPS = {
+    'C11': c11,
     'C04': c04,
     'C12': c12,
     'C02': c02,
